@@ -158,7 +158,7 @@ Definition simple_merge (key : str) (a b : json) : option (res json) :=
   else if iskw key "NOT_enum" then Some (do x <- as_list a; do y <- as_list b; Ok (JArr (x ++ y)))
   else if iskw key "enum" then
     Some (do x <- as_list a; do y <- as_list b;
-          if hashable_all x && hashable_all y then Ok (JArr (einter x y)) else PyErr ETypeError)
+          if hashable_all x && hashable_all y then Ok (JArr (einter x y)) else nerr)
   else None.
 
 Definition is_complex (key : str) : bool := str_eqb key (kw "prefixItems") || str_eqb key (kw "properties").
